@@ -474,7 +474,7 @@ func (r *Runtime) stringproto_normalize(call FunctionCall) Value {
 			return newStringValue(f.String(ss))
 		})
 	case *importedString:
-		if s.scanned && s.u == nil {
+		if s.isScanned() && s.u == nil {
 			return asciiString(s.s)
 		}
 		return newStringValue(f.String(s.s))
